@@ -106,7 +106,7 @@ def path_max (t : Array Int) (i : Int) : Except Err Int := do
     i ← rd t i
   throw .fuel
 
-/-- a partial-sum structure: the two rows of the `2 × (m+6)` array -/
+/-- a `partial_sum` structure: the two rows of the `2 × (m+6)` array -/
 abbrev PSum := Array Int × Array Int
 
 /-- checked read of the view `a[:-1]` -/
